@@ -102,6 +102,9 @@ Definition vars : list ventry := [
   owned "query.activeWorker.activeJob" [WD] "workers map is a local of workDispatcher";
   owned "query.peerRanking.rank" [WD] "cfg.Ranking is only used by workDispatcher";
   owned "query.workQueue.tasks" [WD] "work heap is a local of workDispatcher";
+  owned "query.batchProgress.progressGen" [WD] "per-batch bookkeeping (function-local type of workDispatcher): never leaves the dispatcher; the idle-timer callback gets the generation by value";
+  owned "query.batchProgress.progressTimer" [WD] "same; armed / stopped by the dispatcher only";
+  owned "query.batchProgress.rem" [WD] "same";
 
   (* ---- chanutils/queue.go ---- *)
   mkVar "chanutils.ConcurrentQueue.overflow" (DOwned [CQ]) [] [] "overflow list of the queue's one goroutine";
@@ -153,6 +156,8 @@ Definition allow : list aentry := [
           "&sp.server.chainParams stored in the peer.Config, read by btcd";
   mkAllow "neutrino.zeroHash" "blockmanager.go:blockManager.handleNewPeerMsg" "" KAddr "&zeroHash passed as stop hash (read)";
   mkAllow "neutrino.zeroHash" "blockmanager.go:blockManager.startSync" "" KAddr "same";
+  mkAllow "local:neutrino.go:NewChainService:s" "neutrino.go:NewChainService" "" KAddr
+          "return &s after the goroutines that connect to the configured peers were started: the address is returned, nothing is written";
   mkAllow "neutrino.headerProgressLogger.lastBlockLogTime" "headerlogger.go:headerProgressLogger.SetLastLogTime" "" KWrite
           "no caller in the checkout (test helper)"
 ].
